@@ -75,18 +75,22 @@ def build_levy(atoms, sigma_u, sizes_script):
 
 
 def record(kind, mode, dates, jumps, eps, sigma_u, path, ncomp):
-    """path: StochasticJumpPath; jumps: list of [time_tick, [size per component]]"""
+    """path: StochasticJumpPath; jumps: list of [time_tick, [size per component]];
+    sigma_u: one coefficient for all rows, or one per row (rows: fine dimensions, then coarse dimensions)"""
     times = np.asarray(path.jump_times, dtype=float)
-    jp = np.atleast_2d(np.asarray(path.jump_path, dtype=float))
-    dp = np.atleast_2d(np.asarray(path.diffusion_path, dtype=float))
+    jp = np.asarray(path.jump_path, dtype=float)
+    dp = np.asarray(path.diffusion_path, dtype=float)
+    jp = jp.reshape((-1, jp.shape[-1])) if jp.ndim >= 2 else np.atleast_2d(jp)
+    dp = dp.reshape((-1, dp.shape[-1])) if dp.ndim >= 2 else np.atleast_2d(dp)
+    sig_rows = list(sigma_u) if isinstance(sigma_u, (list, tuple)) else [sigma_u] * len(dp)
     ev = {"e": "Path", "times": [exact_int(t * TICKS, tol=1e-9) for t in times],
           "jump": [[exact_int(v / U, tol=1e-9) for v in row] for row in jp]}
     # (delta diffusion)^2 * TICKS / sigma^2 = dt_ticks * j^2 for the j-th increment drawn
     dsq = []
-    for row in dp:
+    for row, sg in zip(dp, sig_rows + [0] * len(dp)):
         d = np.diff(row)
-        if sigma_u:
-            dsq.append([exact_int((x / (sigma_u * U)) ** 2 * TICKS, tol=1e-7) for x in d])
+        if sg:
+            dsq.append([exact_int((x / (sg * U)) ** 2 * TICKS, tol=1e-7) for x in d])
         else:
             dsq.append([exact_int(x) for x in d])
     ev["dsq"] = dsq
@@ -112,7 +116,8 @@ def run_case(tid, kind, mode, dates, per_interval, eps, sigma_u, rng):
     offsets = deque([off / TICKS for (off, _s) in sorted(lst)] for lst in per_interval)
     sizes = deque(s for i, lst in enumerate(per_interval) for (_o, s) in sorted(lst))
     hdr = {"kind": f"{kind}:{mode}", "dates": dates, "maturity": dates[-1], "eps": eps if mode == "maxstep" else 0,
-           "sigma": sigma_u, "mode": mode, "ncomp": 2 if kind == "coupling" else 1}
+           "sigma": sigma_u, "mode": mode, "ncomp": 2 if kind == "coupling" else 1, "d": 1,
+           "sigs": [sigma_u] * (2 if kind == "coupling" else 1)}
     normal = ScriptedNormal()
     np.random.normal = normal
     ev = []
@@ -190,6 +195,85 @@ def run_case(tid, kind, mode, dates, per_interval, eps, sigma_u, rng):
     return {"tid": tid, "hdr": hdr, "ev": ev}
 
 
+def run_case_copula(tid, kind, mode, dates, per_interval, eps, sigmas, rng):
+    """the 2-d copula chain (kind copchain) and the copula coupling (kind copcoupling);
+    per_interval[i] = list of (offset_ticks, (inc_1, inc_2)) with state increments in grid steps"""
+    from rpylib.distribution.sampling import SamplingMethod
+    from rpylib.grid.spatial import CTMCGrid
+    from rpylib.process.coupling.couplinglevycopula import CouplingProcessLevyCopula
+    from rpylib.process.markovchain.markovchainlevycopula import MarkovChainLevyCopula
+    d = 2
+    jumps = sorted([dates[i] + off, inc] for i, lst in enumerate(per_interval) for (off, inc) in lst)
+    counts = deque(len(lst) for lst in per_interval)
+    offsets = deque([off / TICKS for (off, _s) in sorted(lst)] for lst in per_interval)
+    incs = deque(tuple(inc) for lst in per_interval for (_o, inc) in sorted(lst))
+    coupled = kind == "copcoupling"
+    hdr = {"kind": f"{kind}:{mode}", "dates": dates, "maturity": dates[-1], "eps": eps if mode == "maxstep" else 0,
+           "sigma": max(sigmas), "mode": mode, "ncomp": 2 * d if coupled else d, "d": d,
+           "sigs": list(sigmas) * (2 if coupled else 1)}
+    normal = ScriptedNormal()
+    np.random.normal = normal
+    ev = []
+    try:
+        product = product_for(dates, stochastic=(mode != "fixed"))
+        max_eps = eps / TICKS if mode == "maxstep" else None
+        step = 16
+        axis = np.array([j * step * U for j in range(-3, 4)])
+        grid = CTMCGrid(h=step * U, origin_coordinate=3, axes=[axis] * d)
+        # every cell of the grid and of its refinement carries mass (the scripted increments may name any state)
+        pts = list(range(-47, 48, 4))
+        atoms = [((a, b), rng.randint(1, 3)) for a in pts for b in pts]
+        model = atomic.atom_copula_model(atoms, d)
+        for m, sg in zip(model.models, sigmas):
+            m.levy_triplet.sigma = sg * U
+        if not coupled:
+            proc = MarkovChainLevyCopula(model, grid, SamplingMethod.BINARYSEARCHTREEADAPTED)
+            proc.sampling.sample = lambda size=1: [incs.popleft() for _ in range(int(size))]
+            proc.nb_jump_dt = lambda dt: counts.popleft()
+            proc.jump_times_from_nb_of_jumps = lambda dt, n: np.array(offsets.popleft()[:n], dtype=float)
+            proc.initialisation(product, max_step_epsilon=max_eps)
+            normal.count = 0
+            proc.pre_computation(mc_paths=1, product=product)
+            hdr["jumps"] = [[t, [i * step for i in inc]] for t, inc in jumps]
+            path = proc.simulate_one_path()
+        else:
+            from rpylib.montecarlo.configuration import ConfigurationMultiLevel
+            from rpylib.montecarlo.path import create_path
+            proc = CouplingProcessLevyCopula(levy_copula_model=model, grid=grid, method=SamplingMethod.BINARYSEARCHTREEADAPTED)
+            proc.initialisation(product, max_step_epsilon=max_eps)
+            pms = [create_path(ConfigurationMultiLevel(), proc.fine_process.deterministic_path)]
+            proc.fine_process.nb_jump_dt = lambda dt: 0
+            proc.pre_computation(mc_paths=1, product=product)
+            proc.next_level(mc_paths=1, path_managers=pms, product=product, max_step_epsilon=max_eps)
+            fine = proc.fine_process
+            fine.sampling.sample = lambda size=1: [incs.popleft() for _ in range(int(size))]
+            fine.nb_jump_dt = lambda dt: counts.popleft()
+            fine.jump_times_from_nb_of_jumps = lambda dt, n: np.array(offsets.popleft()[:n], dtype=float)
+
+            class U25:
+                sampling_cost = 0
+
+                def sample(self, size=1):
+                    return np.array([0.25])
+
+                def reset_sampling_cost(self):
+                    pass
+            proc._uniform = U25()
+            normal.count = 0
+            proc.pre_computation(mc_paths=1, product=product)
+            sim = proc._path_coupling_simulation
+            state_of = getattr(sim, "_CouplingLevyCopulaSimulation__coupling_state")
+            fstep = step // 2
+            hdr["jumps"] = [[t, [i * fstep for i in inc] + [exact_int(float(v) / U) for v in np.ravel(state_of(tuple(inc)))]]
+                            for t, inc in jumps]
+            path = proc.simulate_one_path_with_coupling()
+        ev.append(record(kind, mode, dates, jumps, eps, hdr["sigs"], path, hdr["ncomp"]))
+    except Exception as ex:
+        import traceback
+        ev.append({"e": "Raise", "what": type(ex).__name__ + ": " + str(ex)[:100], "tb": traceback.format_exc()[-700:]})
+    return {"tid": tid, "hdr": hdr, "ev": ev}
+
+
 def finer_grid_cases(rng, quick):
     """the refinement functions called directly on integer arrays (times in ticks)"""
     from rpylib.process.coupling.helper import create_build_finer_grid_fun
@@ -258,6 +342,26 @@ def main():
                                 per.append([(o, rng.choice([-5, -2, 1, 3, 7]) if kind == "levy" else rng.choice([-3, -2, -1, 1, 2, 3])) for o in offs])
                         eps = rng.choice([1, 3, 5, 8, 20, 200])
                         traces.append(run_case(f"p{len(traces)}", kind, mode, dates, per, eps, rng.choice([0, 4, 8]), rng))
+        for kind in ("copchain", "copcoupling"):
+            for mode in ("fixed", "jump", "maxstep"):
+                for dates in date_sets:
+                    for rep in range(2 if quick else 5):
+                        per = []
+                        for i in range(len(dates) - 1):
+                            width = dates[i + 1] - dates[i]
+                            n = rng.choice([1, 2, 3]) if rep == 1 else rng.choice([0, 0, 1, 2])
+                            offs = sorted(rng.sample(range(1, width), min(n, width - 1)))
+                            lst = []
+                            for o in offs:
+                                inc = (0, 0)
+                                while inc == (0, 0):
+                                    inc = (rng.randint(-3, 3), rng.randint(-3, 3))
+                                lst.append((o, inc))
+                            per.append(lst)
+                        if rep == 0 and mode != "fixed" and rng.random() < 0.4:
+                            per = [[] for _ in per]
+                        eps = rng.choice([1, 3, 5, 8, 20, 200])
+                        traces.append(run_case_copula(f"p{len(traces)}", kind, mode, dates, per, eps, rng.choice([(0, 0), (4, 8), (8, 4)]), rng))
     finally:
         np.random.normal = real_normal
     fg = finer_grid_cases(rng, quick)
